@@ -4,6 +4,7 @@ import (
 	"bufio"
 	"fmt"
 	"os"
+	"sort"
 	"strings"
 
 	"github.com/dolthub/dolt/go/libraries/doltcore/sqle/dprocedures"
@@ -16,7 +17,8 @@ func init() {
 	// `vrepo sql <file>`: run the statements of a file against a fresh in-process server and print every result; it is
 	// the reproduction tool for the witnesses of this engine. One statement per line; "@name stmt" runs on the named
 	// session (sessions are opened on first use; a session named like the script's sessions works as in the monitor);
-	// "#" starts a comment; "!kill_connections" / "!session_aware" switch the GC safepoint controller.
+	// "#" starts a comment; "!kill_connections" / "!session_aware" switch the GC safepoint controller; "!apifp <db>" prints the Go-API
+	// fingerprint and the result of the chunk-closure walk.
 	rig.SubCommands["sql"] = func(args []string) int {
 		if len(args) < 1 {
 			fmt.Fprintln(os.Stderr, "usage: sql <file>")
@@ -59,6 +61,26 @@ func init() {
 			}
 			if line == "!kill_connections" || line == "!session_aware" {
 				dprocedures.UseSessionAwareSafepointController = line == "!session_aware"
+				continue
+			}
+			if strings.HasPrefix(line, "!apifp ") { // print the Go-API fingerprint and the closure walk of a database
+				db := strings.TrimSpace(line[7:])
+				ddb, err := srv.OpenDoltDB(db)
+				if err != nil {
+					fmt.Println("  ERROR:", err)
+					continue
+				}
+				fp, roots := sqlrig.APIFingerprint(ddb)
+				var keys []string
+				for k := range fp {
+					keys = append(keys, k)
+				}
+				sort.Strings(keys)
+				for _, k := range keys {
+					fmt.Printf("  %s = %s\n", k, fp[k])
+				}
+				rep := sqlrig.WalkClosure(ddb, roots, false)
+				fmt.Printf("  closure: %d chunks, problems: %v\n", rep.Chunks, rep.Problems)
 				continue
 			}
 			name := "0"
